@@ -21,6 +21,8 @@ package %s
 import (
 	"crypto/sha1"
 	"strconv"
+
+	"github.com/zeebo/bencode"
 )
 
 type vCase struct {
@@ -106,6 +108,13 @@ func vLive(b []byte) bool               { return true }
 func vDeadlocked() bool                 { return false }
 func vNondetErr(name string) error      { return nil }
 func vHavocBytes(b []byte, name string) {}
+func vBencode(v interface{}) []byte {
+	b, err := bencode.EncodeBytes(v)
+	if err != nil {
+		panic(vStop{"assume"})
+	}
+	return b
+}
 `
 
 const nativeTest = `//go:build verif
